@@ -77,9 +77,8 @@ TRUSTED_BASE = [
     "as binary and compared, not modelled in Coq",
 ]
 ASSUMPTIONS = [
-    "polygon coordinates are finite; a query point with a NaN/inf coordinate is expected outside "
-    "every polygon and inside every inverted filter (complement) - not modelled in Coq, checked "
-    "by the long-array oracle",
+    "polygon coordinates are finite; for a query point with a NaN/inf coordinate only "
+    "'inverted filter = complement of the plain filter' is demanded (long-array oracle)",
     "axes are lower-case ASCII feature names; keys and numbers in .poly files are ASCII",
     "identifiers are non-negative; identifiers are preserved when they are free in the importing "
     "session (C15_roundtrip_partial), otherwise fresh distinct ones are given and everything "
@@ -1579,7 +1578,7 @@ def run(run):
     run.count("corpus", len(corpus))
 
     # ---------------- geometry ----------------
-    ngeom = 2500 if run.thorough else 260
+    ngeom = 1800 if run.thorough else 260
     geom = [c for c in corpus if c.get("kind") == "geom"]
     while len(geom) < ngeom:
         geom.append(gen_geom_case(rng, run.thorough))
@@ -1787,7 +1786,7 @@ def run(run):
     sci_token_check(run, rng)
 
     # ---------------- mixed dtypes / layouts of the query arrays ----------------
-    ndt = 1500 if run.thorough else 160
+    ndt = 1000 if run.thorough else 160
     dts = [c for c in corpus if c.get("kind") == "dtype"]
     while len(dts) < ndt:
         dts.append(gen_dtype_case(rng))
@@ -1807,7 +1806,7 @@ def run(run):
             run.oracle_failure(c, fail, None)
 
     # ---------------- copy(invert) chains ----------------
-    ncp = 600 if run.thorough else 70
+    ncp = 400 if run.thorough else 70
     cps = [c for c in corpus if c.get("kind") == "copy"]
     while len(cps) < ncp:
         cps.append(gen_copy_case(rng))
